@@ -217,6 +217,13 @@ pub fn run(path: &str, out: &mut dyn Write) {
                                 if let Some(sy) = field("SYNTH=") {
                                     f.push_str(&format!(" SYNTH={sy}"));
                                 }
+                                if let Some(seeds) = field("SEEDS=") {
+                                    let parts: Vec<Option<Vec<u8>>> = seeds.split('.').map(|h| unhex(h)).collect();
+                                    if let ([Some(lx), Some(un), Some(fd), Some(rd)], Some(Ok(gen))) = (&parts[..], &g) {
+                                        let cl = crate::trainer::classes_flag(lx, cd.as_bytes(), un, fd, rd, gen, user.as_deref().unwrap_or(&[]));
+                                        f.push_str(&format!(" CLASSES={cl} SEEDS={seeds}"));
+                                    }
+                                }
                                 f
                             }
                             None => flags.clone(),
